@@ -10,8 +10,8 @@ Order of work (every run):
      each compared with the generated Lean via the driver (`ask bulk loop|findif | …`) and with monitors that do
      not depend on the model (std::find_if oracle, evaluations outside the range, prefix/duplicate checks).
   4. WITNESS     the driver enumerates d <= 5000 for distances whose chunks do not tile [0,d) / whose model evaluates
-     the predicate outside the range (DESIGN §3.5), compares the set with the side condition of the theorems, and
-     replays the least one on the real find_if (recording iterator + guard-paged real memory).
+     the predicate outside the range (DESIGN §3.5; none on the fixed tree) and the distances of the former defect
+     (DESIGN §8 #1, fixed by 64fd49b) are always replayed on the real find_if (recording iterator + guard-paged real memory).
   5. RT          bulk_schedule on the real static_thread_pool under the controlled scheduler (harness/rt/scn_c17.cpp).
 """
 import os, random, re, subprocess, time
@@ -22,15 +22,13 @@ from ..vlib import log
 LIBS = ["inplace_stop_token.cpp", "manual_event_loop.cpp", "static_thread_pool.cpp", "async_stack.cpp", "exception.cpp"]
 HARNESS = os.path.join(vlib.VERIF, "harness", "c17", "diff_c17.cpp")
 
-# stable site strings (known_findings.json keys)
+# stable site strings.  Both defects they were introduced for are FIXED in /repo (5421458 sequential overload,
+# 64fd49b parallel overload); the monitors stay, so a regression is reported as a plain VIOLATION under the same site.
 SITE_OOB = "find_if/parallel: predicate evaluated outside the range"
-SITE_OOB_OTHER = "find_if/parallel: predicate evaluated outside the range (distance outside the modelled defect set)"
 SITE_SEQ_UAS = "find_if/sequential: predicate used after the find_if_helper temporary holding it was destroyed"
-
-
-def in_defect_set(d):
-    """negation of the side condition of Props/C17 chunks_tile_range_partial"""
-    return not (d < 160 or 31 <= d // 32 + d % 32)
+# distances of the former defect (32q+r, q >= 5, q+r < 31) and neighbours: always replayed with the recording iterator
+# and over guard-paged real memory
+REGRESSION_DISTANCES = [160, 161, 185, 186, 500, 959, 991]
 
 
 def kv(line):
@@ -80,8 +78,6 @@ class DiffPart:
         t0 = time.time()
         try:
             exe = vlib.build_plain(HARNESS, LIBS, sanitize="address,undefined", name="diff_c17")
-            exe_nouas = vlib.build_plain(HARNESS, LIBS, sanitize="address,undefined", name="diff_c17_nouas",
-                                         extra_flags=["-fno-sanitize-address-use-after-scope"])
         except vlib.BuildError as e:
             verdict.add("diff:build", "harness does not build against the current tree: " + str(e)[-1500:], dict(stream="diff"), found_input=False)
             return
@@ -89,7 +85,7 @@ class DiffPart:
         thorough = tier == "thorough"
         self.bulk(Harness(exe), rnd, thorough, verdict, cov, driver)
         self.findif_par(Harness(exe), rnd, thorough, verdict, cov, driver)
-        self.findif_seq(Harness(exe), Harness(exe_nouas), rnd, thorough, verdict, cov, driver)
+        self.findif_seq(Harness(exe), rnd, thorough, verdict, cov, driver)
         self.witness(Harness(exe), thorough, verdict, cov, driver)
         cov["parts_wall_s"][self.name] = round(time.time() - t0, 1)
 
@@ -238,7 +234,7 @@ class DiffPart:
                 cov["distinct_nontrivial"] += 1
             # monitors independent of the model
             if int(f.get("oob", 0)) > 0:
-                (oob_known if (tag == "parallel" and in_defect_set(d)) else oob_other).append((d, req, real))
+                oob_other.append((d, req, real))
             elif f.get("res") != f.get("exp"):
                 wrong.append((d, req, real))
         return oob_known, oob_other, wrong
@@ -251,11 +247,10 @@ class DiffPart:
             verdict.add("find_if/parallel: harness aborted (sanitizer / crash)", f"request `{bad}`: {err[-600:]}", dict(stream="diff", request=bad, stderr=err[-1500:]), found_input=True)
             return
         oob_known, oob_other, wrong = self.compare_findif("parallel", reqs, out, verdict, cov, driver)
-        self.par_oob_known = oob_known
         if oob_other:
             d, req, real = oob_other[0]
             f = kv(real)
-            verdict.add(SITE_OOB_OTHER, f"distance {d}: predicate evaluated on offset {f.get('first_oob')} ({f.get('oob')} evaluations outside [0,{d})), returned {f.get('res')} expected {f.get('exp')}",
+            verdict.add(SITE_OOB, f"distance {d}: predicate evaluated on offset {f.get('first_oob')} ({f.get('oob')} evaluations outside [0,{d})), returned {f.get('res')} expected {f.get('exp')}",
                         dict(stream="diff", distance=d, first_out_of_range_index=int(f.get("first_oob", -1)), request=req, real=real[:1500], distances=[x[0] for x in oob_other][:50]))
         if wrong:
             d, req, real = wrong[0]
@@ -264,18 +259,16 @@ class DiffPart:
                         dict(stream="diff", distance=d, request=req, real=real[:1500], distances=[x[0] for x in wrong][:50]))
         cov["samples"].append(dict(stream="diff/find_if par", request=reqs[len(reqs) // 3][3], real=out[len(reqs) // 3][:300]))
 
-    def findif_seq(self, h_asan, h_nouas, rnd, thorough, verdict, cov, driver):
-        # (a) the full sanitizer build on one request: the sequential overload captures `this` of a temporary
-        out, err, rc = h_asan.batch(["findif seq loop 10 100 2 3 7"])
-        if "stack-use-after-scope" in err:
-            frame = re.search(r"in (unifex::_find_if::\S+|\(anonymous namespace\)::do_findif)", err)
-            verdict.add(SITE_SEQ_UAS, "AddressSanitizer: stack-use-after-scope while the sequential find_if invokes the predicate (the lambda in find_if_helper::operator()(…, sequenced_policy, …) captures `this` of the temporary find_if_helper created in _receiver::set_value)",
-                        dict(stream="diff", request="findif seq loop 10 100 2 3 7", asan=err[:1200], frame=frame.group(1) if frame else ""))
-        elif len(out) != 1:
-            verdict.add("find_if/sequential: harness aborted (sanitizer / crash)", err[-800:], dict(stream="diff", stderr=err[-1500:]))
-        # (b) functional differential on the build without use-after-scope instrumentation
+    def findif_seq(self, h, rnd, thorough, verdict, cov, driver):
         reqs = [r for i, r in enumerate(self.findif_requests("seq", rnd, thorough)) if thorough or i % 3 == 0]
-        out, err, rc = h_nouas.batch([r[3] for r in reqs])
+        out, err, rc = h.batch([r[3] for r in reqs])
+        if "stack-use-after-scope" in err:
+            # the defect fixed by 5421458: the lambda of the sequential overload captured `this` of a temporary find_if_helper
+            bad = reqs[len(out)][3] if len(out) < len(reqs) else "?"
+            frame = re.search(r"in (unifex::_find_if::\S+)", err)
+            verdict.add(SITE_SEQ_UAS, "AddressSanitizer: stack-use-after-scope while the sequential find_if invokes the predicate",
+                        dict(stream="diff", request=bad, asan=err[:1200], frame=frame.group(1) if frame else ""))
+            return
         if len(out) != len(reqs):
             bad = reqs[len(out)][3] if len(out) < len(reqs) else "?"
             verdict.add("find_if/sequential: harness aborted (sanitizer / crash)", f"request `{bad}`: {err[-600:]}", dict(stream="diff", request=bad, stderr=err[-1500:]), found_input=True)
@@ -296,56 +289,36 @@ class DiffPart:
         tf = driver.ask(f"ask bulk findif | tilefails {limit}")
         f = kv(tf)
         cov["samples"].append(dict(stream="witness", query=f"tilefails {limit}", answer=tf))
-        first = f.get("first", "none")
-        unexpected = int(f.get("bad_inside_cond", 0)) + int(f.get("ok_outside_cond", 0))
         if "count" not in f:
             verdict.add("witness: driver query failed", tf, dict(stream="witness", answer=tf), found_input=False)
             return
-        targets = []
-        if first != "none":
-            targets.append(int(first))
-        if unexpected:
-            # the set of failing distances is not the one characterised by chunks_tile_range_iff: find such a distance
-            for d in range(0, limit + 1):
-                ans = driver.ask(f"ask bulk findif | chunks {d}")
-                bad = self.chunks_bad(d, ans)
-                if bad != in_defect_set(d):
-                    targets.append(d)
-                    break
-        oob = driver.ask(f"ask bulk findif | oobfail {limit}")
+        targets = list(REGRESSION_DISTANCES)
+        model_bad = set()
+        if f.get("first", "none") != "none":        # contradicts Props/C17 chunks_tile_range: the proof gate is broken too
+            targets.append(int(f["first"])); model_bad.add(int(f["first"]))
+        oob = driver.ask(f"ask bulk findif | oobfail {limit if thorough else 1500}")
         if oob.startswith("d="):
-            targets.append(int(kv(oob)["d"]))
+            targets.append(int(kv(oob)["d"])); model_bad.add(int(kv(oob)["d"]))
         for d in sorted(set(targets)):
             fence = d + 40
             out, err, rc = h.batch([f"findif par loop {d} {fence} 0", f"guard {d}", f"findif par loop {d} {fence} 1 {d - 1}" if d else "const"])
             cov["evaluations"] += 3
-            if len(out) < 2:
+            if len(out) < 3:
                 verdict.add("witness: harness aborted on the replay", err[-600:], dict(stream="witness", distance=d, stderr=err[-1500:]))
                 continue
-            r = kv(out[0])
-            guard = out[1]
-            real_bad = int(r.get("oob", 0)) > 0 or "SEGV" in guard or r.get("res") != r.get("exp")
-            cov["samples"].append(dict(stream="witness", distance=d, model_chunks=driver.ask(f"ask bulk findif | chunks {d}")[:400], real=out[0][:300], guard=guard))
+            r, guard, r2 = kv(out[0]), out[1], kv(out[2]) if d else {}
+            real_bad = int(r.get("oob", 0)) > 0 or "SEGV" in guard or "killed" in guard or r.get("res") != r.get("exp") or (d and r2.get("res") != r2.get("exp"))
+            if d == REGRESSION_DISTANCES[0] or d in model_bad:
+                cov["samples"].append(dict(stream="witness", distance=d, model_chunks=driver.ask(f"ask bulk findif | chunks {d}")[:400], real=out[0][:300], guard=guard))
             if real_bad:
-                site = SITE_OOB if in_defect_set(d) else SITE_OOB_OTHER
                 first_oob = int(r.get("first_oob", -1))
-                verdict.add(site, f"distance {d}: the real parallel find_if evaluates the predicate on offset {first_oob} (… {r.get('oob')} evaluations outside [0,{d})) and returns {r.get('res')} instead of {r.get('exp')}; over real memory: {guard}",
+                verdict.add(SITE_OOB, f"distance {d}: the real parallel find_if evaluates the predicate on offset {first_oob} ({r.get('oob')} evaluations outside [0,{d})) and returns {r.get('res')} (expected {r.get('exp')}); over real memory: {guard}",
                             dict(stream="witness", distance=d, first_out_of_range_index=first_oob, evaluations_outside=int(r.get("oob", 0)), returned=r.get("res"), expected=r.get("exp"),
                                  guard_page=guard, model=tf, replay_cmd=f"printf 'findif par loop {d} {fence} 0\\nguard {d}\\n' | {h.exe}"))
-            else:
+            elif d in model_bad:
                 verdict.add("witness: the generated model leaves the range but the real find_if does not", f"distance {d}: model {oob} / {tf}; real {out[0][:200]}; {guard}",
                             dict(stream="witness", distance=d, real=out[0][:1000], guard=guard, broken="correspondence of Generated/FindIfChunks.lean"), found_input=False)
         cov["traces_validated_against_impl"] += len(set(targets))
-
-    @staticmethod
-    def chunks_bad(d, ans):
-        m = re.search(r"chunks=(\S+)", ans)
-        if not m:
-            return True
-        ch = [tuple(map(int, re.match(r"(-?\d+)-(-?\d+)$", c).groups())) for c in m.group(1).split(",")]
-        if not ch or ch[0][0] != 0 or ch[-1][1] != d:
-            return True
-        return any(b > e or e > d for b, e in ch) or any(ch[i][1] != ch[i + 1][0] for i in range(len(ch) - 1))
 
 
 # ------------------------------------------------------------------------------------------------ rt part
@@ -420,7 +393,7 @@ class ProofPart:
         ok, out, _ = vlib.lake_build(["UnifexModel.Props.C17"])
         if not ok:
             errs = [l for l in out.split("\n") if "error" in l][:8]
-            others = sorted({v[0] for v in verdict.violations if v[3] and v[0] not in (SITE_OOB, SITE_SEQ_UAS)})
+            others = sorted({v[0] for v in verdict.violations if v[3]})
             verdict.add("proof: Props/C17 does not check against the definitions regenerated from the C++ text",
                         " / ".join(errs)[:1200] + (f"  (concrete failing inputs reported under: {others[:3]})" if others else ""),
                         dict(stream="proof", broken_theorems=errs, checker_cmd="cd lean && lake build UnifexModel.Props.C17", failing_inputs_reported_under=others), found_input=bool(others))
@@ -487,8 +460,8 @@ def run(tier, seed, replay=None):
                      "find_if distances are non-negative; iterators are identified with offsets from begin (random access, as the code itself assumes for par)",
                      "statement structure of set_value / find_if_helper outside the arithmetic holes is pinned literally by the translator skeleton (any other edit = broken tie)",
                      "bulk_schedule has no scheduler-specific customisation in the tree (default sender only): index loop runs on one worker; sequentially consistent atomics in the rt runs",
-                     "theorem find_if_returns_first holds under the side condition d < 160 ∨ 31 ≤ d/32 + d%32 (exactly the distances for which the chunks tile; the others are the reported defect)"],
+                     "bulk_schedule launches the chunk lambdas in index order on one thread (true for the only bulk_schedule implementation in the tree): find-first relies on it, as the code's own comment says"],
         trusted_extra=["tools/cxx2lean_bulk.py skeleton matcher + expression printer (validated per run by the differential part)", "harness/c17/diff_c17.cpp recording iterator / receivers",
                        "harness/rt (cooperative scheduler)", "g++ 12 -fsanitize=address,undefined"],
-        explanation="Theorems (Props/C17, all n / all distances): bulk_visits_each_once_in_order, bulk_stop_cuts_at_chunk_boundary, no_next_after_terminal, chunks_tile_range_iff/_partial, "
-                    "chunks_tile_range_fails_at_160 (witness of DESIGN §8 #1), find_if_returns_first, find_if_seq_returns_first. Tie: translator (regenerated every run) + differential runs + witness replay.")
+        explanation="Theorems (Props/C17, all n / all distances / all predicates): bulk_visits_each_once_in_order, bulk_stop_cuts_at_chunk_boundary, no_next_after_terminal, chunks_tile_range, "
+                    "find_if_returns_first, find_if_seq_returns_first (+ history section about the hand-transcribed pre-fix arithmetic). Tie: translator (regenerated every run) + differential runs + regression replay of the former defect distances (recording iterator, guard page).")
